@@ -1,0 +1,93 @@
+//go:build verif
+
+package generator
+
+import (
+	"fmt"
+	"sort"
+	"sync/atomic"
+	"text/template"
+	"text/template/parse"
+)
+
+// Verification hook (build tag "verif" only): counts how often each template and each
+// if/else/range/with arm of the parsed *.gotmpl trees is executed. The rendered output is
+// unchanged: the spliced action evaluates to the empty string.
+
+var verifArms = map[string]*uint64{}
+
+func verifHit(id string) string {
+	if c, ok := verifArms[id]; ok {
+		atomic.AddUint64(c, 1)
+	}
+	return ""
+}
+
+// VerifTemplateCoverage returns the execution count of every instrumented arm.
+func VerifTemplateCoverage() map[string]uint64 {
+	out := make(map[string]uint64, len(verifArms))
+	for k, c := range verifArms {
+		out[k] = atomic.LoadUint64(c)
+	}
+	return out
+}
+
+// init runs after template.go's init (files of a package are initialised in file-name order).
+func init() {
+	templates.Funcs(template.FuncMap{"verifHit": verifHit})
+	ts := templates.Templates()
+	sort.Slice(ts, func(i, j int) bool { return ts[i].Name() < ts[j].Name() })
+	for _, t := range ts {
+		if t.Tree == nil || t.Tree.Root == nil {
+			continue
+		}
+		n := 0
+		verifSplice(t.Name(), &n, t.Tree.Root)
+	}
+}
+
+func verifSplice(name string, n *int, l *parse.ListNode) {
+	if l == nil {
+		return
+	}
+	for _, node := range l.Nodes {
+		switch x := node.(type) {
+		case *parse.IfNode:
+			verifSplice(name, n, x.List)
+			if x.ElseList != nil {
+				verifSplice(name, n, x.ElseList)
+			}
+		case *parse.RangeNode:
+			verifSplice(name, n, x.List)
+			if x.ElseList != nil {
+				verifSplice(name, n, x.ElseList)
+			}
+		case *parse.WithNode:
+			verifSplice(name, n, x.List)
+			if x.ElseList != nil {
+				verifSplice(name, n, x.ElseList)
+			}
+		}
+	}
+	id := fmt.Sprintf("%s#%d", name, *n)
+	*n++
+	var c uint64
+	verifArms[id] = &c
+	act := &parse.ActionNode{
+		NodeType: parse.NodeAction,
+		Pos:      l.Pos,
+		Pipe: &parse.PipeNode{
+			NodeType: parse.NodePipe,
+			Pos:      l.Pos,
+			Cmds: []*parse.CommandNode{{
+				NodeType: parse.NodeCommand,
+				Pos:      l.Pos,
+				Args: []parse.Node{
+					&parse.IdentifierNode{NodeType: parse.NodeIdentifier, Pos: l.Pos, Ident: "verifHit"},
+					&parse.StringNode{NodeType: parse.NodeString, Pos: l.Pos, Quoted: fmt.Sprintf("%q", id), Text: id},
+				},
+			}},
+		},
+	}
+	l.Nodes = append([]parse.Node{act}, l.Nodes...)
+}
